@@ -44,7 +44,9 @@ def configs(tier, seed):
                 if depth > 16:
                     continue
                 for writable in (True, False):
-                    out.append({"size": size, "dw": dw, "gran": gran, "writable": writable, "pat": seed + 1})
+                    # the init image is an ITERABLE: handed over as list, tuple, generator, iterator or map object
+                    form = ["list", "gen", "tuple", "iter", "map"][(len(out)) % 5]
+                    out.append({"size": size, "dw": dw, "gran": gran, "writable": writable, "pat": seed + 1, "init": form})
     return out
 
 
@@ -56,8 +58,12 @@ def _pattern(cfg):
 
 def maker(cfg):
     def make():
+        pat = _pattern(cfg)
+        form = cfg.get("init", "list")
+        init = {"list": lambda: list(pat), "tuple": lambda: tuple(pat), "gen": lambda: (v for v in pat),
+                "iter": lambda: iter(pat), "map": lambda: map(int, pat)}[form]()
         dut = WishboneSRAM(size=cfg["size"], data_width=cfg["dw"], granularity=cfg["gran"],
-                           writable=cfg["writable"], init=_pattern(cfg))
+                           writable=cfg["writable"], init=init)
         res = list(dut.wb_bus.memory_map.resources())
         md = res[0][0].data
         return Harness(dut, flat_ports(dut), dut=dut, md=md, mems=[(md, None)])
